@@ -10,7 +10,7 @@ MAXBUF = 1 << 20
 HDRSZ = 4096
 ASYNC_OPS = (1, 3, 4, 14, 15, 16, 20, 30, 35, 43)
 
-HEADER = S.HEADER.replace('Model.Server Model.ServerCmp.', 'Model.Server Model.ServerCmp Model.ServerAsync.')
+HEADER = S.HEADER.replace('Model.Server Model.ServerCmp.', 'Model.Server Model.ServerCmp Model.ServerAsync Proofs.ServerAsyncEquiv.')
 
 # ------------------------------------------------------------------ harness driver (two observations per case)
 def case_line(c):
@@ -49,6 +49,14 @@ def passthrough_of(c):
 def strip_pt(reply):
     return reply[:-4] + b'\0\0\0\0' if len(reply) >= 4 else reply
 
+def in_known_class(c):
+    """the defining condition of the one known defect class; mirrors Proofs.ServerAsyncEquiv.known_class (checked against it in
+    Coq on every case, see model_vs_impl)"""
+    h = hdr_of(c)
+    if not h or c['remap'] == 'fail': return False
+    r = c['req']
+    return h['len'] <= MAXBUF + HDRSZ and h['op'] == 16 and len(r) >= 80 and struct.unpack_from('<I', r, 56)[0] > MAXBUF
+
 def classify(c, so, ao):
     """-> None when the two observations agree (C20 holds on this case), else (what, sig).
     The signature names a known defect class only when BOTH the input is in the class and the async
@@ -73,7 +81,22 @@ def classify(c, so, ao):
         return v[4] == hdrbytes
     base = {'op': op if op in S.OPS else 'other', 'tr': c['tr']}
     ok_remap = c['remap'] != 'fail'
-    if h and ok_remap:
+    # 1. the KNOWN class first, decided by its defining condition (= Coq known_class: header parses, id remap succeeds, not
+    #    oversized, opcode 16, a whole WriteIn is there and its size field exceeds MAX_BUFFER_SIZE; the capacity, the transport
+    #    and the filesystem's answer are NOT part of it), and only if the async observation is exactly what that defect produces:
+    #    no filesystem call beyond the id remap, the ENOMEM reply if it fits (else the failed attempt), while the sync handler
+    #    called write.  Anything else inside the class stays 'unclassified'.
+    if in_known_class(c):
+        enomem = errhdr(12, h['unique'])
+        fits = c['cap'] >= 16 and not c.get('fdfail')
+        only_remap = len(ao['calls']) == 1 and ao['calls'][0].startswith('id_remap(') and so['calls'][:1] == ao['calls']
+        sync_wrote = len(so['calls']) == 2 and so['calls'][1].startswith('write(')
+        reply_ok = (reply_is(va, enomem, True) and ao['res'] == 'ok:16') if fits else (ao['res'] == 'err:EncodeMessage' and not ao['packets'] and not ao['mem'])
+        if only_remap and sync_wrote and reply_ok and not ao['panic'] and ao.get('hooklog') == so.get('hooklog'):
+            return ('WRITE with size %d > MAX_BUFFER_SIZE is answered ENOMEM by async_write without calling the filesystem; the sync path calls write'
+                    % struct.unpack_from('<I', c['req'], 56)[0], dict(base, defect='async-write-size-gate'))
+    # 2. labels of the defects repaired by 2dcabb6 / 45bf06c (status "fixed": a recurrence is a VIOLATION under its old name)
+    elif h and ok_remap:
         enomem = errhdr(12, h['unique'])
         only_remap = len(ao['calls']) == 1 and ao['calls'][0].startswith('id_remap(')
         oversize = h['len'] > MAXBUF + HDRSZ
@@ -86,10 +109,6 @@ def classify(c, so, ao):
             if only_remap and reply_is(va, enomem, False) and ao['res'] == 'ok:16' and not so['packets'] and not so['mem']:
                 return ('oversized %s (len %d) gets an ENOMEM reply on the async path; the sync path sends none (%s)' % (S.OPS[op][0], h['len'], so['res']),
                         dict(base, defect='async-gate-forget-reply'))
-        elif op == 16 and not oversize and len(c['req']) >= 80 and struct.unpack_from('<I', c['req'], 56)[0] > MAXBUF:
-            if only_remap and reply_is(va, enomem, True) and ao['res'] == 'ok:16' and any(x.startswith('write(') for x in so['calls']):
-                return ('WRITE with size %d > MAX_BUFFER_SIZE is answered ENOMEM by async_write without calling the filesystem; the sync path calls write'
-                        % struct.unpack_from('<I', c['req'], 56)[0], dict(base, defect='async-write-size-gate'))
     if fd and c['cap'] >= 16 and vs[:3] == va[:3] and len(vs[3]) == 1 and len(vs[3][0]) == 16 and list(va[3]) == [vs[3][0], stale] \
             and struct.unpack_from('<i', vs[3][0], 4)[0] < 0:
         return ('async error reply on fusedev is followed by a second 16-byte write of stale reply-buffer memory (async_commit on an unbuffered writer)',
@@ -107,9 +126,9 @@ def model_vs_impl(tag, cases, obs, mask, broken, sync_every=1):
     [sync_every]-th case (the sync tie is C01-C03's, with the same generator). In the quick tier (sync_every > 1) every
     second case of the early-return block is compared between the two real handlers only, unless they differ.
     -> (bad async idx, bad sync idx)"""
-    ok, out = coq_make(['Model/ServerAsync.vo', 'Spec/Init.vo'])
+    ok, out = coq_make(['Model/ServerAsync.vo', 'Proofs/ServerAsyncEquiv.vo', 'Spec/Init.vo'])
     if not ok:
-        broken.append({'kind': 'proof', 'name': 'build of Model/ServerAsync.vo failed', 'site': coq_error_site(out)})
+        broken.append({'kind': 'proof', 'name': 'build of Model/ServerAsync.vo / Proofs/ServerAsyncEquiv.vo failed', 'site': coq_error_site(out)})
         return [], []
     idx = [i for i, c in enumerate(cases) if c['id'] in obs and 'sync' in obs[c['id']] and 'async' in obs[c['id']]
            and not c.get('fdfail')      # the models assume the fd accepts every write
@@ -118,12 +137,20 @@ def model_vs_impl(tag, cases, obs, mask, broken, sync_every=1):
     for n, i in enumerate(idx):
         c = cases[i]; k = 'Virtio' if c['tr'] == 'virtio' else 'FuseDev'
         exprs.append('(obs_eqb %s %s %s)' % (k, coq_async_handle(c, mask), S.coq_obs(obs[c['id']]['async']))); tags.append(('a', i))
+        # the class the python predicate suppresses is the class C20_partial excludes (every WRITE, every 5th other case; the
+        # capacity, transport and answer are not part of the class -- C20_known_class_only_request -- so fixed ones are passed)
+        hh = hdr_of(c)
+        if (hh and hh['op'] == 16) or n % 5 == 0:
+            exprs.append('(Bool.eqb (known_class %s FuseDev 0 %s FUnit) %s)' % (S.coq_cfg(c, mask), hexN(c['req']), 'true' if in_known_class(c) else 'false')); tags.append(('k', i))
         if n % sync_every == 0 or obs[c['id']]['sync']['res'] != obs[c['id']]['async']['res']:
             exprs.append('(obs_eqb %s %s %s)' % (k, S.coq_handle(c, mask), S.coq_obs(obs[c['id']]['sync']))); tags.append(('s', i))
     nsh = min(NPROC, 8)      # coqc start-up (loading the models) dominates on a loaded machine: few, larger shards
     shard = max(20, (len(exprs) + nsh - 1) // nsh)
     fails, errs = coq_check_cases(tag, HEADER, exprs, shard=shard)
     if errs: broken.append({'kind': 'correspondence', 'name': 'Coq evaluation of the server models failed', 'log': errs[0]})
+    for j in fails:
+        if tags[j][0] == 'k':
+            broken.append({'kind': 'correspondence', 'name': 'python in_known_class disagrees with Coq known_class', 'case': case_json(cases[tags[j][1]])})
     return [tags[j][1] for j in fails if tags[j][0] == 'a'], [tags[j][1] for j in fails if tags[j][0] == 's']
 
 # the witness of Proofs/ServerAsyncEquiv.v (C20_refuted_write_size) and the three former witnesses of the repaired
@@ -244,12 +271,12 @@ def audit_cases(rng, full):
             body = S.enc_struct(S.OPS[op][1], f) + q['payload']
             h = q['hdr']
             req = S.in_header(40 + len(body), op, h['unique'], h['nodeid'], h['uid'], h['gid'], h['pid']) + body
-            mk(q, S.gen_fs(rng, OK_KIND[op][0], op, f), req=req, half=int(i % 3 != 0), **{'yield': i % 2 == 0})
+            mk(q, S.gen_fs(rng, OK_KIND[op][0], op, f), req=req, half=int(i % 4 != 0), **{'yield': i % 2 == 0})
     # C. every error kind / boundary errno through every reply-helper path
     for op in (ASYNC_OPS if full else (3, 15, 16, 35)):
         for i, e in enumerate([('err', 'kind', k) for k in range(10)] + [('err', 'os', 1), ('err', 'os', 4095)]):
             q = S.gen_wf(rng, op)
-            mk(q, e, half=int(i % 3 != 0), **{'yield': i % 2 == 1})
+            mk(q, e, half=int(i % 4 != 0), **{'yield': i % 2 == 1})
     # D. count returned by write larger than 32 bits (`count as u32`)
     for n_ in ((1 << 32) + 5, (1 << 64) - 1):
         for tr in trs:
@@ -261,6 +288,22 @@ def audit_cases(rng, full):
                 q = S.gen_wf(rng, op)
                 fs = ('open', fh, opts, None) if kind == 'open' else ('create', S.gen_entry(rng), fh, opts, None)
                 mk(q, fs, half=1 if opts in (2, 8) else 0, **{'yield': opts == 4})
+    # G. the known class (WRITE, size > MAX_BUFFER_SIZE) crossed with everything that is NOT part of it: capacity, transport,
+    #    id remap, prior minor, the answer, a hook -- so that its suppression (and only its) is exercised on every run
+    for cap in (0, 1, 15, 16, 17, 24, 4096):
+        for tr in trs:
+            for remap, minor, fs in (((0, 0), 33, ('count', 32768)), ((1000, 2000), 4, ('err', 'os', 5))):
+                q = S.gen_wf(rng, 16)
+                b = bytearray(q['bytes']); struct.pack_into('<I', b, 56, rng.choice([MAXBUF + 1, 3500291122, (1 << 32) - 1]))
+                c = mk(q, fs, req=bytes(b), tr=tr, cap=cap, hook=(cap in (1, 17)))
+                c['remap'] = remap; c['minor'] = minor
+    #    ... and its boundary from outside: size = MAX_BUFFER_SIZE, an id remap that fails, a length field beyond MAX + HDR
+    q = S.gen_wf(rng, 16)
+    for size, remap, hl in ((MAXBUF, (0, 0), None), (MAXBUF + 1, 'fail', None), (MAXBUF + 1, (0, 0), MAXBUF + HDRSZ + 1)):
+        for cap in (1, 4096):
+            b = bytearray(q['bytes']); struct.pack_into('<I', b, 56, size)
+            if hl: struct.pack_into('<I', b, 0, hl)
+            c = mk(q, ('count', 7), req=bytes(b), cap=cap); c['remap'] = remap
     # F. the fd refuses the write (fusedev): both handlers must report the failure alike; not modelled (the models' fd accepts)
     for op in ASYNC_OPS + (10, 28, 38, 2):
         q = S.gen_wf(rng, op)
@@ -302,12 +345,13 @@ def gen(rng, n, start=0, targeted='full', witnesses=True, config_block=True):
         cases += config_cases(rng)
         cases += audit_cases(rng, targeted == 'full')
         er = early_return_cases(rng)
-        for i, c in enumerate(er): c['block'] = 'early'; c['half'] = int(i % 3 != 0)
+        for i, c in enumerate(er): c['block'] = 'early'; c['half'] = int(i % 4 != 0)
         cases += er
         # malformed names of every opcode that carries strings: lookup / create (async handlers) on both transports, the
         # fall-back opcodes alternating
         bn = S.gen_badname_cases(rng, 0) + [c for c in S.gen_badname_cases(rng, 0, transports=('virtio', 'fusedev'))
                                            if struct.unpack_from('<I', c['req'], 4)[0] in (1, 35)]
+        for i, c in enumerate(bn): c['block'] = 'badname'; c['half'] = i % 2
         cases += bn
     for c in cases: c['fill'] = rng.randrange(256)
     if witnesses: cases += witness_cases()
